@@ -22,13 +22,14 @@ func init() {
 			"+o/-o/+v on members, 353 with new names); the specification states S_0,S_1,.. are produced by the relational tracker model. Foreground and background harness handlers for every verb take exactly one tracker call " +
 			"(GetChannel, atomic under the tracker's lock): a foreground handler for line n first waits until the receive goroutine has logged line n+1 (so a broken loop could have applied it) and yields repeatedly, then its snapshot must equal S_n; " +
 			"a background handler's snapshot must equal S_k for some n <= k <= R, R = lines the receive goroutine had logged when the call returned. The server end reads in bursts so internal handlers that send (WHO) are sometimes stalled. " +
-			"Only foreground samples taken after line n+1 had been received can refute 'not ahead'; distinct_nontrivial = distinct (verb, handler kind, next-line-already-received, GOMAXPROCS) cells.",
+			"Only foreground samples taken after line n+1 had been received can refute 'not ahead'; Plus virtual-time sessions (testing/synctest) whose foreground handlers run for up to an hour: the tracker must show exactly the handler's own line at entry and at exit. distinct_nontrivial = distinct (verb, handler kind, next-line-already-received, GOMAXPROCS) cells.",
 		Assumptions: []string{"the '<- line' log record marks the point after which the event loop may receive that line; it is used to bound R and to time foreground samples, never as an oracle for the tracker's content"},
 		Plan: func(tier string, seed int64) []Batch {
 			var bs []Batch
 			for _, p := range []int{1, 2, 4, 16} {
 				bs = append(bs, Batch{Name: fmt.Sprintf("p%d", p), Args: map[string]string{"procs": fmt.Sprint(p)}, Race: true, Procs: p, Weight: min(p, 4)})
 			}
+			bs = append(bs, Batch{Name: "slow-virtual", Kind: "synctest", Race: true, Args: map[string]string{"test": "TestC05SlowHandlers"}})
 			if tier == "thorough" {
 				for i := 0; i < 8; i++ {
 					p := []int{1, 2, 4, 16}[i%4]
